@@ -6,6 +6,7 @@ use crate::topics::topic_actor::{PublishMessagesResponse, TopicActor, TopicReque
 use crate::topics::topic_manager::TopicManagerDelegate;
 use crate::topics::{TopicMessage, TopicName};
 use std::cmp::Ordering;
+use std::sync::atomic::{AtomicBool, Ordering as AtomicOrdering};
 use std::sync::Arc;
 use tokio::sync::{mpsc, oneshot};
 
@@ -22,6 +23,9 @@ pub struct Topic {
 
     /// The topic actor's mailbox.
     sender: mpsc::Sender<TopicRequest>,
+
+    /// Set by the topic actor once the topic has been deleted.
+    deleted: Arc<AtomicBool>,
 }
 
 /// Provides information about the topic.
@@ -35,12 +39,22 @@ impl Topic {
     /// Creates a new `Topic`.
     pub fn new(delegate: TopicManagerDelegate, info: TopicInfo, internal_id: u32) -> Self {
         let name = info.name.clone();
-        let sender = TopicActor::start(delegate, info, internal_id);
+        let deleted = Arc::new(AtomicBool::new(false));
+        let sender = TopicActor::start(delegate, info, internal_id, Arc::clone(&deleted));
         Self {
             name,
             internal_id,
             sender,
+            deleted,
         }
+    }
+
+    /// Returns whether the topic has been deleted.
+    ///
+    /// A deleted topic can outlive its deletion for as long as a request that
+    /// looked it up earlier still holds a reference to it.
+    pub fn is_deleted(&self) -> bool {
+        self.deleted.load(AtomicOrdering::Acquire)
     }
 
     /// Publishes the messages.
